@@ -212,7 +212,8 @@ func IsCyclicErr(err error) bool {
 			return true
 		}
 	}
-	return strings.Contains(err.Error(), "cyclic reference")
+	// judged by the chain of reasons only, never by the wording of the message
+	return false
 }
 
 // MentionsMsg: a ${x:?m} failure carries m in its reason or message.
